@@ -130,6 +130,12 @@ class Universe:
             self.opaque_attrs.setdefault(c, {}).update(d)
         self.recfuns.update(getattr(mod, "RECFUN", {}))
         self.class_alias.update(getattr(mod, "CLASS_ALIAS", {}))
+        self.__dict__.setdefault("closed_hierarchies", set()).update(getattr(mod, "CLOSED_HIERARCHIES", []))
+        for c, why in getattr(mod, "HIERARCHY_OUT_OF_SCOPE", {}).items():
+            self.__dict__.setdefault("hierarchy_out_of_scope", {})[c] = why
+            a = "class %s is outside the declared hierarchy: %s" % (c, why)
+            if a not in self.assumptions:
+                self.assumptions.append(a)
         if hasattr(mod, "native_globals"):
             self.__dict__.setdefault("native_globals", {}).update(mod.native_globals())
         for ax in getattr(mod, "AXIOMS", []):
@@ -166,7 +172,10 @@ class State:
         self.alloc = None        # Int term
         self.pc = []             # path condition
         self.frames = []         # active frame restrictions (list of Frame)
-        self.glob = set()        # ids of facts that hold unconditionally (definitions of fresh symbols, typing)
+        # facts that hold unconditionally (definitions of fresh symbols, typing): z3 AST id -> the AST itself. The
+        # AST is kept alive on purpose: z3 recycles the ids of freed ASTs, and a recycled id would make an unrelated
+        # later fact (e.g. a short-circuit guard) look unconditional
+        self.glob = {}
         self.in_binder = 0
         self.typed_seen = set()
         self.on_new_heap = None
@@ -191,7 +200,7 @@ class State:
             return
         self.pc.append(f)
         if glob:
-            self.glob.add(f.get_id())
+            self.glob[f.get_id()] = f
 
     def H(self, comp):
         if comp not in self.heap:
